@@ -36,6 +36,10 @@ func (a Any) completeIndexExprAtPos(ctx context.Context, pos hcl.Pos) []lang.Can
 		// references and functions.
 		lastTraversal := eType.Traversal[len(eType.Traversal)-1]
 		if _, ok := lastTraversal.(hcl.TraverseIndex); ok {
+			if pos.Byte <= lastTraversal.SourceRange().Start.Byte || pos.Byte > lastTraversal.SourceRange().End.Byte {
+				// cursor is not in the index key (e.g. on the root name)
+				return candidates
+			}
 			expr := newEmptyExpressionAtPos(eType.Range().Filename, pos)
 			return newExpression(a.pathCtx, expr, cons).CompletionAtPos(ctx, pos)
 		}
